@@ -16,6 +16,7 @@ package redis
 
 import (
 	"errors"
+	"net"
 	"sync"
 
 	"github.com/google/uuid"
@@ -27,14 +28,38 @@ type ConnManager struct {
 	mutex *sync.RWMutex
 	// stopped is true between Stop and the next Start: connections arriving then are closed.
 	stopped bool
+	// pending holds the accepted connections which are not served yet (their TLS handshake is
+	// in progress), so that Stop can close them too.
+	pending map[net.Conn]struct{}
 }
 
 // NewConnManager returns a connection map.
 func NewConnManager() *ConnManager {
 	return &ConnManager{
-		m:     map[uuid.UUID]*Conn{},
-		mutex: &sync.RWMutex{},
+		m:       map[uuid.UUID]*Conn{},
+		mutex:   &sync.RWMutex{},
+		pending: map[net.Conn]struct{}{},
 	}
+}
+
+// addPendingConn remembers an accepted connection until it is served or given up.
+// A connection arriving after Stop is closed and false is returned.
+func (mgr *ConnManager) addPendingConn(c net.Conn) bool {
+	mgr.mutex.Lock()
+	defer mgr.mutex.Unlock()
+	if mgr.stopped {
+		c.Close()
+		return false
+	}
+	mgr.pending[c] = struct{}{}
+	return true
+}
+
+// removePendingConn forgets the specified pending connection.
+func (mgr *ConnManager) removePendingConn(c net.Conn) {
+	mgr.mutex.Lock()
+	defer mgr.mutex.Unlock()
+	delete(mgr.pending, c)
 }
 
 // AddConn adds the specified connection.
@@ -106,6 +131,12 @@ func (mgr *ConnManager) Close() error {
 func (mgr *ConnManager) Stop() error {
 	mgr.mutex.Lock()
 	mgr.stopped = true
+	// A client in the middle of its TLS handshake is not registered yet: it is closed here,
+	// otherwise it would stay connected until the handshake timeout.
+	for c := range mgr.pending {
+		c.Close()
+	}
+	mgr.pending = map[net.Conn]struct{}{}
 	mgr.mutex.Unlock()
 	if err := mgr.Close(); err != nil {
 		return err
